@@ -156,13 +156,9 @@ class Attenuated(Job):
                     else:
                         exp_def = cases((spread_below(vals, S.ft.v, "range", 0), FAIL),
                                         (spread_below(vals, S.st.v, "range", 0), SUSPECT), default=GOOD)
-                        if all(pattern):
-                            ok = mk_if(enough, mk_eq(out.flags[i], exp_def), flag_is(out.flags[i], UNKNOWN))
-                        else:
-                            # a missing value inside a time window: pandas hands np.ptp the raw window -> NaN -> UNKNOWN;
-                            # 'max-min of the values observed' would also be defined.  The text leaves this open: accept either.
-                            ok = mk_if(enough, mk_or(mk_eq(out.flags[i], exp_def), flag_is(out.flags[i], UNKNOWN)),
-                                       flag_is(out.flags[i], UNKNOWN))
+                        # the spread is that of the values *observed* in the window: a missing value is not an observation
+                        # (as in the std path and in the whole-series path)
+                        ok = mk_if(enough, mk_eq(out.flags[i], exp_def), flag_is(out.flags[i], UNKNOWN))
                     alts.append(mk_and(cond, ok))
             obl.append((f"flag[{i}] follows the spread of the window (t-P, t] (present value)", mk_or(S.x[i].nan, mk_or(*alts))))
         return obl
@@ -199,7 +195,7 @@ FUNCTIONS = ["ioos_qc/qartod.py:attenuated_signal_test", "ioos_qc/utils.py:mapda
 OUTSIDE = ["series longer than the bound (std: n<=3 quick / 4 thorough)", "spreads within 2^-20 of a threshold (the property's own exclusion; "
            "std is never evaluated as a square root: comparisons are lowered to variance vs threshold^2)",
            "negative thresholds", "min_period with irregular sampling (floor(min_period/median step) is non-linear): regular 60 s step only",
-           "range over a time window containing a missing value: UNKNOWN or max-min both accepted", "values beyond +-1024"]
+           "values beyond +-1024"]
 ASSUMPTIONS = ["numpy.ma and pandas Series.rolling('<P>s', min_periods).std()/.apply(np.ptp, raw=True) environment model validated per "
                "path against pandas 3.0.5 (window (t-P,t], min_periods counts non-NaN observations, ddof=1)",
                "thresholds >= 0, test_period >= 1 whole seconds, strictly increasing times (whole seconds; sub-second stamps in dedicated jobs)"]
